@@ -266,6 +266,12 @@ func (x *Exec) callTarget(s *State, f *Frame, fn *ssa.Function, intr string, arg
 		ctx := &CallCtx{Args: args, Fn: fn, Frame: f, Instr: instr, Common: common, RT: rt}
 		x.StubsHit["intrinsic:"+name]++
 		v := in(x, s, ctx)
+		if name == VrfPkg+".Join" {
+			if finish(v) {
+				x.push(s)
+			}
+			return false
+		}
 		return finish(v)
 	}
 	if fn == nil {
